@@ -139,7 +139,7 @@ CLAIMS = {
              "all three: the reservation flag is set iff the front slot is the single reserved slot. Tie: the real nodes are driven sequentially through their public interface and compared with the model "
              "result by result and slot by slot (head, tail, capacity, slot states). Found and fixed: buffer_node::try_get handed out the item held by a pending reservation (6d233aa). "
              "limiter_node (LimModel): theorem limiter_never_exceeds_threshold - for any sequence of puts, successor accept/reject outcomes and positive decrements (also from inside the put) my_count + my_tries <= threshold "
-             "and forwarded - requested decrements <= threshold; tie limiter-seq compares result, my_count, my_tries and my_future_decrement with the real node after every operation. join_node, queueing policy (JoinModel): for every number of ports and every sequence of puts, successor accept / reject / try_get / re-registration and forward-task runs the i-th tuple is the i-th message of every port, nothing lost or used twice, ports_with_no_items = number of empty ports (join_queueing_ith_with_ith), and no complete tuple is stranded while the successor is registered and no forward task is pending (join_complete_tuple_not_stranded); tie join-seq: result, ports_with_no_items, forwarder_busy, successor registered, tuples delivered, every port's buffer size after every operation and all tuples equal the model's.",
+             "and forwarded - requested decrements <= threshold; tie limiter-seq compares result, my_count, my_tries and my_future_decrement with the real node after every operation. join_node, queueing policy (JoinModel): for every number of ports and every sequence of puts, successor accept / reject / try_get / re-registration and forward-task runs the i-th tuple is the i-th message of every port, nothing lost or used twice, ports_with_no_items = number of empty ports (join_queueing_ith_with_ith), and no complete tuple is stranded while the successor is registered and no forward task is pending (join_complete_tuple_not_stranded); tie join-seq: result, ports_with_no_items, forwarder_busy, successor registered, tuples delivered, every port's buffer size after every operation and all tuples equal the model's. Reserving join fed by queue_nodes (JoinRModel): inputs are consumed only as complete tuples, i-th with i-th, every refused or incomplete attempt releases all reservations (join_reserving_all_or_nothing), no complete tuple stranded (join_reserving_tuple_not_stranded); tie joinr-seq additionally compares each sender's buffer and predecessor-cache membership and checks that no reservation is pending after an operation.",
         note="PARTIAL: priority_queue_node, limiter_node, join_node (queueing / reserving / key_matching), overwrite/write_once/broadcast/split/indexer nodes and forwarding to successors have no Coq model; "
              "priority_queue_node is checked against the node contract sequentially, queue/sequencer/limiter/join graphs with real threads (order, threshold, matching tuples, conservation). "
              "Concurrency inside one node is serialised by its aggregator (not modelled).",
